@@ -51,8 +51,12 @@ class Runner:
         self.n += 1
         j = os.path.join(self.wd, "%s.journal" % tag)
         v = os.path.join(self.wd, "%s.verdict" % tag)
-        rc, _, err = self.ctx.run([self.h] + args, stdout_path=j, timeout=600)
-        if rc not in (0,):
+        rc, _, err = self.ctx.run([self.h] + args, stdout_path=j, timeout=900)
+        if rc == -999:
+            # the journal written so far is still judged; the driver reports the operation that hangs
+            with open(j, "a") as f:
+                f.write("crash TIMEOUT\nend\n")
+        elif rc not in (0,):
             self.ctx.fatal("harness failed rc=%s: %s" % (rc, (err or "")[-400:]))
         rc, _, err = self.ctx.run([self.d], stdin_path=j, stdout_path=v, timeout=600)
         if rc != 0:
@@ -238,7 +242,7 @@ def run(ctx):
     kf_mm = examine(j, v, "known-finding probes")
 
     # 3. seeded histories -----------------------------------------------------------------------------
-    n_hist = 600 if ctx.tier == "quick" else 12000
+    n_hist = 1200 if ctx.tier == "quick" else 15000
     chunk = 600
     totals = collections.Counter()
     ops_hist = collections.Counter()
